@@ -268,6 +268,58 @@ func c03Exhaustive(c *core.Ctx, maxLen int) error {
 	return flush()
 }
 
+// c03SmallInts: EVERY integer of small magnitude (all one-, two- and three-byte heads and a stretch of the five-byte
+// ones), as a list element, as a map value and at the top: the accepted node holds exactly that integer.  (Exhaustive
+// over a range where an implementation might keep a table of preallocated values.)
+func c03SmallInts(c *core.Ctx) {
+	lim := int64(70000)
+	if c.Thorough() {
+		lim = 1 << 21
+	}
+	head := func(major byte, u uint64) []byte {
+		switch {
+		case u < 24:
+			return []byte{major | byte(u)}
+		case u < 1<<8:
+			return []byte{major | 24, byte(u)}
+		case u < 1<<16:
+			return []byte{major | 25, byte(u >> 8), byte(u)}
+		default:
+			return []byte{major | 26, byte(u >> 24), byte(u >> 16), byte(u >> 8), byte(u)}
+		}
+	}
+	bad := 0
+	for i := -lim; i <= lim && bad < 5; i++ {
+		var item []byte
+		if i >= 0 {
+			item = head(0x00, uint64(i))
+		} else {
+			item = head(0x20, uint64(-1-i))
+		}
+		for shape, in := range map[string][]byte{"top": item, "in-list": append([]byte{0x81}, item...), "in-map": append([]byte{0xa1, 0x61, 0x6b}, item...)} {
+			nb := basicnode.Prototype.Any.NewBuilder()
+			if err := dagcbor.Decode(nb, bytes.NewReader(in)); err != nil {
+				c.Fail("C03/rejects-canonical-dagcbor", core.Replay{Kind: "oracle", Case: "cbor.dec " + hex.EncodeToString(in), Impl: err.Error(), Expected: fmt.Sprintf("the integer %d (%s)", i, shape)})
+				bad++
+				continue
+			}
+			n := nb.Build()
+			switch shape {
+			case "in-list":
+				n, _ = n.LookupByIndex(0)
+			case "in-map":
+				n, _ = n.LookupByString("k")
+			}
+			if got, err := n.AsInt(); err != nil || got != i {
+				c.Fail("C03/accepted-node-denotes-another-value", core.Replay{Kind: "oracle", Case: "cbor.dec " + hex.EncodeToString(in), Impl: fmt.Sprint(got, err), Expected: fmt.Sprintf("%d (%s)", i, shape)})
+				bad++
+			}
+		}
+	}
+	c.Count(fmt.Sprintf("c03.small-ints ±%d", lim), true)
+	c.Dist("small-ints-exhaustive")
+}
+
 func runC03(c *core.Ctx) error {
 	c.Rule = "all byte strings up to length 2 (quick) / 3 (thorough), then labelled structural departures and byte-level mutations of canonical encodings of generated values (one departure site per case); non-trivial = input of at least 2 bytes; distinct by input bytes"
 	c.Explanation = "theorems: decode_complete (everything the Spec denotes, within the configured limits, is accepted with that value), decode_encode, one rejection lemma per strictness rule; oracle: accepted ⇒ Spec.denotesCheck on the implementation's value"
@@ -277,6 +329,7 @@ func runC03(c *core.Ctx) error {
 	wi := c03Impl(dagcbor.DecodeOptions{AllowLinks: true}, w)
 	c.KnownWitness("C03/negint-2^64-wraps", wi == "ok i0", "cbor.dec 3bffffffffffffffff → "+wi)
 
+	c03SmallInts(c)
 	if err := c03Exhaustive(c, c.Pick(2, 3)); err != nil {
 		return err
 	}
